@@ -40,7 +40,7 @@ CHECKS = {
  "C05": ("A-sequential-explorer",
          "explicit-state BFS to a fixpoint + exhaustive bounded tree on the real ThrottledRecorder with injected clock; arrival-curve monitor; composition under the real MotionProcessor",
          "All request/clock schedules of any length (fixpoint on canonical keys, 10 exact-tick parameter sets) and all well-formed strings to depth 7 (10) for those plus 2 awkward rates; frames reaching the wrapped recorder are checked against bucket + refill earned (+1% and 2 frames) on every interval by an arrival-curve monitor carried in the state. The same throttle under the real motion processor: every motion bit-string to depth 12 (16) with clock jumps/resets/bad frames, and 400-frame continuous/burst patterns.",
-         "main.go's wiring of the throttle (activate flag, min+preview length) is checked end-to-end in the C11 harness, not here. The fixpoint key reads juju/ratelimit private fields (library version pinned by go.mod); the tree does not.",
+         "Stage (c): main.go's wiring (activate flag, min+preview as minimum length, bucket) runs end to end through the real handleConn in an overlay stage (14 setting relations x 60 frames of continuous motion) whose evidence is merged into this file. The fixpoint key reads juju/ratelimit private fields (library version pinned by go.mod); the tree does not.",
          "DESIGN.md §4 C05"),
  "C06": ("A-sequential-explorer",
          "same exploration as C05 with failing wrapped-recorder starts as deviations; step-by-step reference-model oracle and pairing monitor",
@@ -50,12 +50,12 @@ CHECKS = {
  "C12": ("A-sequential-explorer",
          "exhaustive enumeration of event strings x fault placements on the real MotionProcessor with three protocol-monitored sinks; recovery suffix",
          "Every event string over {motion frame, still frame, bad frame, reset, test-recording request} to length 6 (7) with every placement of one failing sink call, and to length 4 (6) with every pair, continuous recorder on/off, 6 (8) configurations incl. the real Lepton parser; per-sink protocol monitors, recovered panics, and a fault-free suffix that must be recorded exactly as predicted.",
-         "Sinks are harness monitors with CPTVFileRecorder's closing behaviour (closed even when stop errors); the nil-dereference consequence with the real file recorder is shown in the file-level harness (C10/C11).",
+         "First stage (overlay): the same processor with three REAL CPTVFileRecorders, every event string of length 3 (4) with every single file-system operation failing (os->vos), no panic allowed. Second stage: harness monitors with CPTVFileRecorder's closing behaviour (closed even when stop errors).",
          "DESIGN.md §4 C12"),
  "C13": ("A-sequential-explorer",
          "exhaustive enumeration of frame/bad-frame strings on the real MotionProcessor (harness parser and real lepton3.ParseRawFrame) with a differential oracle; exhaustive zero-pixel-position / boundary-value sweep of the Lepton parser",
          "Processor level: every {motion, still} string to depth 10 (12) with <=2 (3) bad frames at any position, recorder lattice, plus passes with the real Lepton parser and with continuous/test recordings on; bad ids must never reach a sink, the open recording must end within the bad-frame event, and deleting the bad frames must not change detection results or (outside a cut) the sink trace. Parser level: every single and double zero position x edge-pixels 0..2 x three resolutions, every pixel position x six byte-order-revealing values, telemetry words over boundary values.",
-         "The Boson parser (package main) is covered by the overlay harness registered under this property as a second stage once built; arbitrary 16-bit frame contents outside the alphabets are not enumerated.",
+         "The Boson parser (package main) is swept the same way in an overlay stage (plus streams with bad frames through the real handleConn); its evidence is merged. Arbitrary 16-bit frame contents outside the alphabets are not enumerated.",
          "DESIGN.md §4 C13"),
  "C17": ("A-sequential-explorer",
          "exhaustive prefix enumeration x tail-pattern menu on the real MotionProcessor with monitored continuous/test/motion sinks; differential against the request-free run",
@@ -87,6 +87,16 @@ CHECKS = {
          "For each of five recording histories (single, back-to-back, discarded on connection loss, motion+test interleaved, motion+continuous) and frame sizes 8x6 (and 160x120 thorough): one run with a concurrent-observer decode of every *.cptv at EVERY file-system operation boundary, then one run per crash point (kill before operation k, k=1..N) and per torn write, each followed by the real deleteTempFiles; only complete, content-exact recordings may bear .cptv and nothing else may remain.",
          "Process-kill semantics (completed operations persist, user-space buffers lost); power loss / fsync ordering is not modelled (C10 does not claim it). The shim is swapped in by rewriting the `os`/`time` imports of copies of cptvfilerecorder.go and go-cptv's writer.go/filewriter.go at check time.",
          "DESIGN.md §4 C10"),
+ "C11": ("D-end-to-end-driver",
+         "exhaustive pair/boundary enumeration of frame contents and metadata through the real CPTVFileRecorder and standard reader; end-to-end enumeration of config.toml setting combinations through the real ParseConfig + handleConn on an in-memory connection, differential against a harness-wired real MotionProcessor",
+         "Recorder level: every ordered pair of images over a 2-pixel (quick) / 4-pixel (thorough, 1.68 M pairs) block x six byte-boundary values as consecutive frames, every position x value on 8x6 (sampled on 160x120), telemetry/ids/strings (0,1,255 bytes, YAML-hostile)/location components/threshold/preview/fps one field at a time. End to end: every combination of camera model (boson, lepton3, lepton3.5 with model motion defaults) x (min,max,preview) x trigger frames x throttling x continuous recorder (quick: every 5th), each with a motion-burst stream; every finished file is compared frame by frame and field by field with the recording predicted from the settings.",
+         "Universality over 16-bit data is outside what enumeration gives (alphabets are stated in the evidence). Empty brand/model/firmware strings are stored as 'absent' by the format and not compared. Throttling with min-secs+preview-secs = 0 is excluded (library panic, noted in DESIGN.md).",
+         "DESIGN.md §4 C11"),
+ "C14": ("D-end-to-end-driver",
+         "exhaustive enumeration of camera descriptions x truncation points on ReadHeaderInfo; exhaustive enumeration of frame/marker arrangements x read segmentations (all single cut points, pairs around markers, one-byte reads) through the real handleConn; static extraction of marker/keys from both daemons",
+         "Header: 2916 camera descriptions encoded as the camera daemon does, with a sentinel after the blank line, and every truncation point of a subset. Stream: every arrangement of 3 (6 thorough) frames with <=2 'clear' markers at any gap, under greedy reads, one-byte reads, every single cut point of the byte stream and every pair of cut points around header end and markers; resulting files must equal the recordings predicted by driving a real MotionProcessor directly (each frame once, in order, reset at each marker).",
+         "sendCameraSpecs needs camera hardware: its 3-line encoder is reproduced and bound to the source by the static extraction (stage c), which is syntactic, not an exploration. Pairs of cuts away from markers/header end are not enumerated.",
+         "DESIGN.md §4 C14"),
 }
 NOT_BUILT = "check not built yet (work in progress)"
 
@@ -122,6 +132,8 @@ def main():
         "engines": [
             {"name": "A-sequential-explorer", "path": "kit/ev, kit/canon, harness/checks", "serves_properties": sorted(i for i in CHECKS if CHECKS[i][0].startswith("A")),
              "kind_free_text": "stateless exhaustive enumeration of operation/event/environment-answer sequences on fresh real objects + explicit-state BFS on reflection-derived canonical keys"},
+            {"name": "D-end-to-end-driver", "path": "harness/overlay/thermal-recorder/e2e_test.go", "serves_properties": sorted(i for i in CHECKS if CHECKS[i][0].startswith("D-")) + ["C05", "C13"],
+             "kind_free_text": "in-memory net.Conn with an explicit segmentation schedule + generated config.toml driving the real ParseConfig/handleConn; results are the files on disk"},
             {"name": "C-crash-point-enumerator", "path": "kit/vos, kit/vtime, bin/overlay.sh, harness/overlay/thermal-recorder", "serves_properties": sorted(i for i in CHECKS if CHECKS[i][0].startswith("C-")),
              "kind_free_text": "file-system operation numbering shim swapped in by import-rewrite overlay; every operation boundary is an observation point and a crash point"},
         ],
